@@ -78,8 +78,10 @@ var registry = map[string]propDef{
 	"C12r": {"other", props.C03rewrite},
 	"C12o": {"other", props.C12outputs},
 	"C04r": {"other", props.C02ranges},
+	"C04w": {"other", props.C05wiring},
 	"C06s": {"other", props.C06prg},
 	"C18p": {"other", props.C18pack},
+	"C18n": {"other", props.C18length},
 	"C07":  {"other", props.C07},
 	"C07b": {"other", props.C07bitwise},
 	"C07p": {"other", props.C07prefix},
@@ -91,6 +93,8 @@ var registry = map[string]propDef{
 	"C11d": {"other", props.C11data},
 	"C11c": {"other", props.C11composite},
 	"C11f": {"other", props.C11fill},
+	"C11x": {"other", props.C11duplex},
+	"C02x": {"other", props.C11duplex},
 	"C12":  {"other", props.C12},
 	"C13":  {"other", props.C13},
 	"C13p": {"other", props.C13parse},
